@@ -270,6 +270,11 @@ package sstables
 
 //@ func NewSSTableReader
 //@   assumed
+//@   props C09
+//@   replay table_damage
+//@   exit [C09:a-table-is-handed-out-only-after-validation] r1 == nil ==> called(SSTableReader.validateDataFile, 0) &&
+//@        callres(SSTableReader.validateDataFile, 0, 0) == nil && asType(*SSTableReader, r0) == reader
+//@   call 0 of SSTableReader.validateDataFile: assert [C09:validates-the-reader-it-returns] recv == reader && reader.opts == opts && reader.index == index
 //@   ensures r1 == nil && len(readerOptions) > 0 ==> rpath(r0) == optPath(readerOptions[0])
 //@   ensures r1 == nil ==> r0 != nil
 //@   ensures r1 != nil ==> r0 == nil
@@ -616,3 +621,88 @@ package sstables
 //@   ensures [end-is-never-an-error] !dxHas(s.reader, old(s.currentOffset)) ==> r2 != nil
 //@   modifies s.currentOffset, s.entry.*
 //@   safety on
+
+// ---------------------------------------------------------------------------------------------------
+// C09: value checksums. crcOf(b): the CRC-64 the writer stores in the index for the value bytes b (hash vocabulary of
+// contracts-ext/stdlib.gvc: a fresh hash has state 0, Write mixes the bytes in). A reader that checks returns a value only
+// if its CRC equals the indexed one (a zero index checksum marks empty / nil / old-format values and is exempt by format design).
+
+//@ spec func crcOf(b Bytes) Int = hmix(0, b)
+
+//@ func checksumValue
+//@   props C09
+//@   ensures [crc-of-the-bytes] r1 == nil && r0 == crcOf(content(value))
+//@   modifies nothing
+
+//@ func (*SSTableReader).getValueAtOffset
+//@   props C09
+//@   replay table_damage
+//@   requires [current-format] reader.opts != nil && reader.v0DataReader == nil && reader.dataReader != nil
+//@   ensures [C09:mismatch-is-an-error] r1 == nil && !skipHashCheck ==> crcOf(content(r0)) == iVal.Checksum || iVal.Checksum == 0
+//@   exit [C09:read-errors-reported] callres(ReadAtI.ReadNextAt, 1, 1) != nil && callres(ReadAtI.ReadNextAt, 1, 1) != io.EOF ==> r1 != nil
+//@   exit [C09:value-is-what-was-read] r1 == nil ==> r0 === callres(ReadAtI.ReadNextAt, 1, 0)
+//@   call 1 of ReadAtI.ReadNextAt: assert [C09:reads-at-the-indexed-offset] arg0 == iVal.Offset
+// (ReadNextAt call 0 in source order is the deprecated v0 protobuf reader, call 1 the current format's reader)
+//@   modifies nothing
+
+// The key index of a table as the reader uses it (the concrete slice and disk indices are verified under C03).
+//@ iface SortedKeyIndex.Iterator
+//@   ensures r1 == nil ==> r0 != nil && slIPos(r0) == 0
+//@   fresh r0
+//@   modifies nothing
+
+//@ func (*SSTableReader).validateDataFile
+//@   props C09
+//@   replay table_damage
+//@   bounded table_damage damaged data files: 4 tables (non-empty values) x 2 (quick) / 4 (thorough) compression types: every byte offset x {bit flips (quick: 2, thorough: 8), 0x00, 0xff, marker bytes}, every truncation length, swapped records; verify-on-load and verify-on-read, Get / Scan / ScanStartingAt
+//@   requires reader.opts != nil && reader.index != nil && (reader.v0DataReader == nil ==> reader.dataReader != nil)
+//@   call 0 of getValueAtOffset: assert [C09:every-indexed-value-is-checked] !arg1 && arg0 == callres(IteratorI.Next, 0, 1) && callres(IteratorI.Next, 0, 2) == nil
+//@   loop 0
+//@     invariant [checked-so-far] true
+//@   exit [C09:check-failure-fails-the-load] called(getValueAtOffset, 0) && callres(getValueAtOffset, 0, 1) != nil ==> r0 != nil
+//@   exit [C09:index-errors-fail-the-load] called(IteratorI.Next, 0) && callres(IteratorI.Next, 0, 2) != nil && !errIs(callres(IteratorI.Next, 0, 2), skiplist.Done) ==> r0 != nil
+//@   exit [C09:success-means-the-whole-index-was-visited] r0 == nil && reader.v0DataReader == nil && !reader.opts.skipHashCheckOnLoad ==>
+//@        called(IteratorI.Next, 0) && errIs(callres(IteratorI.Next, 0, 2), skiplist.Done)
+
+//@ func (*SSTableIterator).Next
+//@   props C09 C03
+//@   replay table_damage
+//@   requires it.reader != nil && it.reader.opts != nil && it.keyIterator != nil && it.reader.v0DataReader == nil && it.reader.dataReader != nil
+//@   exit [C09:checked-unless-switched-off] r2 == nil && !it.reader.opts.skipHashCheckOnRead ==>
+//@        crcOf(content(r1)) == callres(IteratorI.Next, 0, 1).Checksum || callres(IteratorI.Next, 0, 1).Checksum == 0
+//@   exit [C09:errors-reported] (callres(IteratorI.Next, 0, 2) != nil ==> r2 != nil) && (called(getValueAtOffset, 0) && callres(getValueAtOffset, 0, 1) != nil ==> r2 != nil)
+//@   exit [done-is-done] errIs(callres(IteratorI.Next, 0, 2), skiplist.Done) ==> r2 == Done
+//@   exit [C03:key-and-value-of-the-index-entry] r2 == nil ==> r0 === callres(IteratorI.Next, 0, 0) && r1 === callres(getValueAtOffset, 0, 0)
+//@   call 0 of getValueAtOffset: assert [C03:value-of-the-same-entry] arg0 == callres(IteratorI.Next, 0, 1)
+
+//@ func (*SSTableFullScanIterator).Next
+//@   props C09 C03
+//@   replay table_damage
+//@   requires it.keyIterator != nil && it.dataReader != nil
+//@   exit [C09:checked-unless-switched-off] r2 == nil && !it.skipHashCheck ==>
+//@        crcOf(content(r1)) == callres(IteratorI.Next, 0, 1).Checksum || callres(IteratorI.Next, 0, 1).Checksum == 0
+//@   exit [C09:errors-reported] (callres(IteratorI.Next, 0, 2) != nil ==> r2 != nil) && (called(ReaderI.ReadNext, 0) && callres(ReaderI.ReadNext, 0, 1) != nil ==> r2 != nil)
+//@   exit [done-is-done] errIs(callres(IteratorI.Next, 0, 2), skiplist.Done) ==> r2 == Done
+//@   exit [C03:key-and-value-in-step] r2 == nil ==> r0 === callres(IteratorI.Next, 0, 0) && r1 === callres(ReaderI.ReadNext, 0, 0)
+
+//@ iface SortedKeyIndex.Get
+//@   modifies nothing
+
+//@ iface IndexLoader.Load
+//@   ensures r1 == nil ==> r0 != nil
+//@   fresh r0
+//@   modifies nothing
+
+//@ iface SortedKeyIndex.Open
+//@   modifies nothing
+
+//@ func (*SSTableReader).Get
+//@   props C09 C03
+//@   replay table_damage
+//@   requires [current-format] reader.opts != nil && reader.v0DataReader == nil && reader.dataReader != nil && reader.index != nil
+//@   exit [C03:absent-key-is-NotFound] errIs(callres(SortedKeyIndex.Get, 0, 1), skiplist.NotFound) ==> r1 == NotFound && isnil(r0)
+//@   exit [C03,C09:index-errors-reported] callres(SortedKeyIndex.Get, 0, 1) != nil ==> r1 != nil
+//@   exit [C09:checked-unless-switched-off] r1 == nil && !reader.opts.skipHashCheckOnRead ==>
+//@        crcOf(content(r0)) == callres(SortedKeyIndex.Get, 0, 0).Checksum || callres(SortedKeyIndex.Get, 0, 0).Checksum == 0
+//@   call 0 of getValueAtOffset: assert [C03:value-of-the-entry-found] arg0 == callres(SortedKeyIndex.Get, 0, 0)
+//@   modifies nothing
